@@ -34,12 +34,27 @@ def run(ctx):
     cprogs = [compat_program(_random.Random(ctx.rng.randrange(1 << 30)), n=12 + i % 6, maxdepth=3 + i % 3) for i in range(120 if ctx.quick else 3000)]
     cans = stages.run_harness(ctx, "compat", [t.encode().hex() for t in cprogs], flavour="ndebug")
     cmodel = leanb.model("compat", "\n".join(a if " | " in a else "0 |  | " for a in cans) + "\n")
-    npairs = ncdis = ntrue = 0
+    npairs = ncdis = ntrue = nasg = nasgtrue = nadis = 0
     for text, a, m in zip(cprogs, cans, cmodel):
         if a.startswith(("CRASH", "HANG", "bad", "no-model")):
             ctx.report("compat-crash:" + text[-60:], "typesAreCompatible on the declarations of a generated unit did not complete: %s" % a[:200], {"component": "compat", "case": text.encode().hex(), "text": text})
             continue
-        n_, tys, bits = a.split(" | ")
+        n_, tys, bits, abits = a.split(" | ")
+        m, _, am = m.partition(" | ")
+        # the model of isTypeAssignableFromOtherType (Assign.lean; theorems of Props/C11.lean) against the real function: every ordered pair,
+        # right operand not a null pointer constant / the constant 0
+        nasg += len(abits)
+        nasgtrue += abits.count("1")
+        if am != abits:
+            nadis += 1
+            if nadis <= 3:
+                k = next((j for j in range(min(len(am), len(abits))) if am[j] != abits[j]), 0)
+                n = int(n_)
+                i1, i2, nl = k // (2 * n), (k // 2) % n, k % 2
+                tl = tys.split(" ; ")
+                ctx.report("assign-corr:" + text[-60:], "isTypeAssignableFromOtherType(type of v%d, type of v%d, %s) = %s, the Lean model of it gives %s; types %s / %s; unit:\n%s"
+                           % (i1, i2, "the constant 0" if nl else "an expression that is no null pointer constant", abits[k:k + 1], am[k:k + 1] or "(nothing)", tl[i1] if i1 < len(tl) else "?", tl[i2] if i2 < len(tl) else "?", text[-900:]),
+                           {"component": "compat", "case": text.encode().hex(), "text": text, "impl": abits[:400], "model": am[:400]}, no_input=True)
         npairs += len(bits)
         ntrue += bits.count("1")
         if m != bits:
@@ -53,6 +68,7 @@ def run(ctx):
                            % (i1, i2, fl >> 1, fl & 1, bits[k:k + 1], m[k:k + 1] if m != "BAD" else "(unreadable type)", tl[i1] if i1 < len(tl) else "?", tl[i2] if i2 < len(tl) else "?", text[-900:]),
                            {"component": "compat", "case": text.encode().hex(), "text": text, "impl": bits[:400], "model": m[:400]}, no_input=True)
     ctx.notes["compat_tie"] = {"units": len(cprogs), "verdicts_compared": npairs, "of_which_compatible": ntrue, "disagreements": ncdis}
+    ctx.notes["assign_tie"] = {"verdicts_compared": nasg, "of_which_assignable": nasgtrue, "disagreements": nadis}
     T = tests()
     if ctx.quick:
         # the complete pair tables of six representative binary/assignment operators + everything else
